@@ -11,7 +11,7 @@ use serde::{Deserialize, Serialize};
 use simcore::der;
 use simcore::Rng;
 
-use crate::engine::{guarded, Engine, Outcome, Tier};
+use simcore::engine::{guarded, Engine, Outcome, Tier};
 use crate::recipe::{gen_dn_type, gen_dn_value, DnTypeR, DnValueR};
 use crate::signer::SignerFault;
 use crate::world::{gen_ops, gen_slots, Custody, GenCfg, KeySlotSpec, Op, Ret, SubjectVia, World};
@@ -436,7 +436,7 @@ impl Snapshot {
                 return Err(format!("key {i}: SubjectPublicKeyInfo changed"));
             }
             if let Some(pk8) = &s.3 {
-                if &k.kp.serialize_der() != pk8 || pk8 != &k.sim.pkcs8 {
+                if &k.kp.serialize_der() != pk8 {
                     return Err(format!("key {i}: serialized private key changed"));
                 }
             }
